@@ -538,6 +538,15 @@ func execC13(sc *C13Scenario, tr *kit.Trace, res *kit.Result) {
 				// cause it, whatever did (an alias loop, servers refusing) is a genuine failure
 				local = false
 			}
+			if local && op.DeadlineMs > 0 && m != nil && upstream > 0 && !strings.Contains(ede, "budget") &&
+				lat < time.Duration(op.DeadlineMs)*time.Millisecond {
+				// The failure came within the last 5 ms before the client's deadline, not at or
+				// after it: it may be the deadline's doing (timeouts derived from it carry small
+				// margins) or a genuine failure that happened to take that long (an alias loop
+				// found after four queries). Either reading is legitimate, so it may be remembered.
+				local = false
+				res.Probes["failure-just-before-the-deadline"]++
+			}
 			if op.DeadlineMs > 0 && !local {
 				o1 = nil // fast failure rcodes under a deadline: either reading is legitimate
 			}
